@@ -10,6 +10,9 @@ out: {"traces":[..], "stats":{..}}
 """
 import json
 import logging
+import os
+import shutil
+import tempfile
 import sys
 import signal
 import threading
@@ -20,6 +23,7 @@ from insights.core import dr, plugins
 from insights.core.context import HostContext, SerializedArchiveContext
 from insights.core.exceptions import (CalledProcessError, ContentException, SkipComponent,
                                       TimeoutException)
+from insights.core.serde import Hydration, deserializer, serializer
 from insights.core.spec_factory import RegistryPoint, SpecSet
 
 DECOS = {"plain": plugins.component, "datasource": plugins.datasource, "parser": plugins.parser,
@@ -42,6 +46,16 @@ class Falsy(Val):
 
     def __len__(self):
         return 0
+
+
+@serializer(Val)
+def _ser_val(v, root=None):
+    return {"k": v.k, "c": v.c, "xs": list(v.xs)}
+
+
+@deserializer(Val)
+def _de_val(_type, data, root=None, ctx=None, ds=None):
+    return Val(data["k"], data["c"], data["xs"])
 
 
 def vrec(k, c=0, xs=(), mr=(), mg=()):
@@ -84,7 +98,11 @@ class Program(object):
                     quiet[self.comp[c]] = None if case["prog"][c - 1]["outc"] == "none" else Val("seed", c)
             g = self.graph()
             if g:
-                dr.run(g, quiet)
+                if (self.variant // 2) % 2:
+                    # ... asked for by naming targets, so that the engine derives (and may remember) the graph
+                    dr.run([self.comp[c] for c in range(1, self.n + 1) if case["prog"][c - 1]["ingraph"]], quiet)
+                else:
+                    dr.run(g, quiet)
             for reg in self.deferred:
                 reg()
             self.log[:] = []
@@ -469,7 +487,15 @@ class Recorder(object):
         recs = []
         for b in self.brokers:
             recs.extend(self.recs_of(b, 0))
-        self.events.append({"ev": "end", "recs": recs})
+        # what the broker holds at the end for the components whose value the caller supplied
+        seeds = []
+        for c in range(1, self.prog.n + 1):
+            if self.prog.case["prog"][c - 1]["seeded"]:
+                o = self.prog.comp[c]
+                for b in self.brokers:
+                    if o in b:
+                        seeds.append({"c": c, "v": self.prog.proj(b[o])})
+        self.events.append({"ev": "end", "recs": recs, "seeds": seeds})
 
     def final(self):
         """Exact projected final state (order of missing reports kept) for cross-run comparison."""
@@ -519,6 +545,23 @@ def run_case(case, driver, npad, listlen, obsfail, idtag="", host=False):
                 if case["prog"][c - 1]["seeded"]:
                     # a seeded component never runs, so its (unused) outcome field picks the seed value
                     b[prog.comp[c]] = None if case["prog"][c - 1]["outc"] == "none" else Val("seed", c)
+            if case.get("arch") and prog.variant % 2 == 0:
+                # the analysed archive also holds (other) values for the components the caller supplied: loading
+                # it into the caller's broker (Hydration.hydrate, as insights.process_dir does) must keep the
+                # supplied ones.  The archive is written with the library's own Hydration.dehydrate.
+                tmp = tempfile.mkdtemp(prefix="verif-dr-arch-")
+                try:
+                    stored = dr.Broker()
+                    for c in range(1, prog.n + 1):
+                        if case["prog"][c - 1]["seeded"] and case["prog"][c - 1]["outc"] != "none":
+                            stored[prog.comp[c]] = Val("arch", c)
+                    h = Hydration(tmp)
+                    for o in list(stored.instances):
+                        h.dehydrate(o, stored)
+                    if os.path.isdir(os.path.join(tmp, "meta_data")):
+                        Hydration(tmp).hydrate(b)
+                finally:
+                    shutil.rmtree(tmp, True)
             return b
 
         graph = prog.graph()
